@@ -2,6 +2,7 @@
      init  <ring> <src> <m> <x>     ->  <raw>            ("UB" when the model leaves defined behaviour, "NOMODEL" for unmodelled forms)
      rt    <ring> <src> <m> <x>     ->  <raw> <raw of init(convert<Integer>(e))> <.. int64_t> <.. uint64_t> <.. double>
      const <ring> -     <m> 0       ->  <zero> <one> <mOne> <init(-1)>
+     tail  <ring> -     <m> <x>     ->  a - floor(rn(a * rn(1/m))) * m     (ModularExtended only)
    m is the modulus (q = p^k for GFqDom).  For the table rings (gfq*, log16) <raw> is the table index (the value). *)
 let zs = z_of_string
 let z n = z_of_string (string_of_int n)
@@ -39,7 +40,9 @@ let () = run_lines (fun toks ->
      | None -> "NOMODEL"
      | Some r ->
        let m = zs ms in
-       if op = "const" then
+       if op = "tail" then          (* ModularExtended: the value reduce hands to its correction tail *)
+         (match r with Model.RExt prec -> string_of_z (Model.ex_tail prec m (zs xs)) | _ -> "NOMODEL")
+       else if op = "const" then
          String.concat " " [ "0"; string_of_z (Model.one r m); string_of_z (Model.mone r m);
                              str (show_init r (Model.SI Model.i64) m (zs "-1")) ]
        else
